@@ -438,6 +438,9 @@ def I(op, lt, x=1):
 def conc_programs(ctx):
     rng = random.Random(ctx.seed)
     must = [
+        # an incoming message racing local calls: a local Increment between the load and the CAS of the incoming witness
+        {"b": 2, "th": [[I("ev", 5)], [L("uev"), L("uev")]]},
+        {"b": 2, "th": [[I("qry", 5)], [L("lq"), L("lq")]]},
         {"b": 2, "th": [[L("uev")], [L("uev")]]},
         {"b": 2, "th": [[L("lq")], [L("lq")]]},
         {"b": 1, "th": [[L("uev"), L("uev")], [L("uev"), L("lq")]]},
@@ -472,6 +475,9 @@ def run_conc(ctx, binary, progs, tag, maxpre, budget, nrand, choices=None):
     with open(pp, "w") as f:
         for i, p in enumerate(progs):
             rec = {"id": i, "prog": p}
+            if choices is None and maxpre >= 1 and len(p["th"]) == 2 and sum(len(t) for t in p["th"]) <= 3:
+                # small programs: every schedule with <= 2 focused preemptions (complete within the budget)
+                rec["maxpre"], rec["budget"] = 2, max(budget, 400)
             if choices is not None and choices[i] is not None:
                 rec["choices"] = choices[i]
             f.write(json.dumps(rec) + "\n")
@@ -498,7 +504,7 @@ def run_c06(ctx, replay=None):
         if thorough:
             cfgs += [(3, 3, 1, 0, [1], "3 callers x 1 call"),
                      (3, 2, 1, 2, [1, 3, MAX], "2 callers x 1 call + 2 incoming with times {1,3,MAX}"),
-                     (3, 2, 2, 1, [1, MAX], "2 callers x 2 calls + 1 incoming with times {1,MAX}")]
+                     (3, 2, 2, 1, [MAX], "2 callers x 2 calls + 1 incoming with time MAX")]
         for (nt, nl, ll, il, vals, d) in cfgs:
             # without a message at MAX nothing at all may be violated (concurrent callers included)
             inv = "C06" if MAX in vals else "C06Strict"
